@@ -32,20 +32,35 @@ chmod +x run_seeded_inner
 ls -d seeded/$ONLY/ 2>/dev/null | sed 's#/$##' | xargs -P "$JOBS" -I{} bash -c 'one {}' | sort > .cache/seeded/results_$TIER.txt
 rm -f run_seeded_inner
 python3 - "$TIER" <<'EOP'
-import sys, json, os
+import sys, json, os, re
 tier = sys.argv[1]
-rows = [l.rstrip('\n').split('|') for l in open('.cache/seeded/results_%s.txt' % tier) if l.strip()]
-det = sum(1 for r in rows if len(r) > 2 and r[2] == 'exit 1')
+# rows of this run, merged over the rows already in seeded/RESULTS.md (ONLY=<glob> re-runs a subset)
+rows = {}
+if os.path.exists('seeded/RESULTS.md'):
+    for l in open('seeded/RESULTS.md'):
+        m = re.match(r'\| (C\d\d-\d+) \| (C\d\d) \| ([^|]*) \| ([^|]*) \|', l)
+        if m and os.path.isdir(os.path.join('seeded', m.group(1))):
+            out = m.group(3).strip()
+            rows[m.group(1)] = [m.group(1), m.group(2), 'exit 1' if out == 'DETECTED' else out, m.group(4).strip()]
+for l in open('.cache/seeded/results_%s.txt' % tier):
+    if l.strip():
+        r = l.rstrip('\n').split('|')
+        r = r + [''] * (5 - len(r))
+        rows[r[0]] = [r[0], r[1], r[2], r[3].replace('clause=', '').strip()]
+rows = [rows[k] for k in sorted(rows)]
+det = sum(1 for r in rows if r[2] == 'exit 1')
 with open('seeded/RESULTS.md', 'w') as f:
     f.write('# Seeded changes vs. the %s tier\n\n%d of %d kept changes detected (exit 1 + VIOLATION line).\n\n' % (tier, det, len(rows)))
     f.write('| change | property | outcome | failing clauses | what it needs to manifest |\n|---|---|---|---|---|\n')
     for r in rows:
-        r = r + [''] * (5 - len(r))
         try:
             meta = json.load(open(os.path.join('seeded', r[0], 'meta.json')))
         except Exception:
             meta = {}
-        f.write('| %s | %s | %s | %s | %s |\n' % (r[0], r[1], 'DETECTED' if r[2] == 'exit 1' else r[2], r[3].replace('clause=', ''),
+        f.write('| %s | %s | %s | %s | %s |\n' % (r[0], r[1], 'DETECTED' if r[2] == 'exit 1' else r[2], r[3],
                                               str(meta.get('needs', ''))[:160].replace('|', '/')))
-print(open('seeded/RESULTS.md').read()[:3000])
+print(open('seeded/RESULTS.md').read()[:600])
+for r in rows:
+    if r[2] != 'exit 1':
+        print('NOT DETECTED:', r)
 EOP
